@@ -593,6 +593,19 @@ def decide(prop, tier, seed, a, rundir, woven, t0):
     return 0
 
 
+VOCAB_PROPS = {
+    "layout": ("C01", "C02", "C03", "C06", "C17", "C20"),
+    "typedef": ("C01", "C02", "C03", "C05", "C06", "C07", "C15", "C17", "C20"),
+    "function": ("C04", "C05", "C16", "C17", "C20"),
+    "vftable": ("C02", "C04", "C06", "C10", "C14", "C16", "C17", "C19"),
+    "enums": ("C08", "C20"),
+    "builtins": ("C01", "C02", "C03"),
+    "paths": ("C10", "C11", "C14", "C19"),
+    "modules": ("C02", "C10", "C14", "C15"),
+    "resolve": ("C10", "C11", "C19"),
+    "inherit": ("C07", "C17"),
+    "arith": ("C03", "C12"),
+}
 WITNESS_PROPS = {"C07", "C01", "C02", "C03", "C04", "C05", "C06", "C08", "C10", "C11", "C12", "C14", "C15", "C16", "C17", "C19", "C20"}
 
 
@@ -615,11 +628,25 @@ def write_evidence(prop, tier, seed, info, meta, my_units, my_clauses, fres, my_
     failed_clauses = {f["clause"] for f in my_fail if f.get("clause")}
     vunits = [u for u in my_units.values() if u["mode"] == "V"]
     tunits = [u for u in my_units.values() if u["mode"] == "T"]
-    lemma_fns = sorted(k for k, v in fres.items() if (v["module"].startswith("verif_specs") or v["module"] == "verif_prelude") and v["success"])
-    kf_clauses = {f.get("clause") for f in my_fail if any(k.get("clause_tag") and k.get("clause_tag") == f.get("clause_name") for k in known)}
-    n_obl = len(my_clauses) - len(kf_clauses) + len(vunits) + len(lemma_fns)
+    # vocabulary lemmas / verified helpers counted for a property: only those of the vocabulary modules it uses
+    vmods = VOCAB_PROPS
+    def _counts(v):
+        m = v["module"]
+        if m.startswith("verif_prelude"):
+            return True
+        if m.startswith("verif_specs::"):
+            return prop in vmods.get(m.split("::")[1], ())
+        return False
+    lemma_fns = sorted(k for k, v in fres.items() if _counts(v) and v["success"])
+    # obligations that are recorded known findings are listed separately and are not counted (neither as
+    # obligations nor as discharged): a named clause, or - for a safety obligation without a clause - the unit
+    def _is_known(f):
+        return any(match_known(f, [k], prop) for k in known)
+    kf_clauses = {f.get("clause") for f in my_fail if _is_known(f) and f.get("clause")}
+    kf_units = {f["unit"] for f in my_fail if _is_known(f) and not f.get("clause")}
+    n_obl = len(my_clauses) - len(kf_clauses) + len([u for u in vunits if u["unit"] not in kf_units]) + len(lemma_fns)
     failed_clauses = failed_clauses - kf_clauses
-    n_fail = len(failed_clauses) + len({f["unit"] for f in my_fail if f["unit"] in my_units and f.get("clause") not in kf_clauses})
+    n_fail = len(failed_clauses) + len({f["unit"] for f in my_fail if f["unit"] in my_units and not _is_known(f)})
     if undecided:
         n_dis = 0
     else:
@@ -652,6 +679,7 @@ def write_evidence(prop, tier, seed, info, meta, my_units, my_clauses, fres, my_
             "failed_obligations": [{k: f.get(k) for k in ("unit", "kind", "clause", "repo_loc", "woven_loc", "message")} for f in my_fail],
             "failed_obligations_of_other_properties": [{k: f.get(k) for k in ("unit", "kind", "clause", "tags")} for f in other][:20],
             "known_findings_matched": [k.get("what") for k in known],
+            "known_finding_obligations_not_counted": sorted(kf_clauses) + sorted(kf_units),
             "not_covered": info.get("not_covered", []),
         },
         "assumptions": list(info.get("assumptions", [])) + ["trusted contracts: " + ", ".join(u["unit"] for u in tunits)] if tunits else list(info.get("assumptions", [])),
